@@ -113,6 +113,12 @@ impl CachedBlocks {
     }
   }
 
+  /// Follow a ROM bank switch: blocks in 0x4000-0x7fff are cached and looked
+  /// up under the bank that is mapped there
+  pub fn set_rom_bank(&mut self, bank: u16) {
+    self.rom_high.set_bank(bank);
+  }
+
   pub fn get_region(&self, addr: u16) -> Option<&CacheRegion> {
     if addr < 0x4000 {
       return Some(&self.rom_low);
